@@ -46,6 +46,13 @@ example :
       { name := ['s'], rows := [.gap { length := 7, gapType := ['u'] }, .frag { name := ['b'], start := 2, stop := 9, strand := -1 }] } 1
     = .ok none := by rfl
 
+/-- a negative index: `rows[-2::-1]` of three rows starts at row 1 -/
+example :
+    Gen.Imp.BuildAssembly_input_predecessor
+      { name := ['s'], rows := [.frag { name := ['a'], start := 1, stop := 5, strand := 1 }, .gap { length := 7, gapType := ['u'] },
+                                .frag { name := ['b'], start := 2, stop := 9, strand := -1 }] } (-1)
+    = .ok (some (.frag { name := ['a'], start := 1, stop := 5, strand := 1 }, [.gap { length := 7, gapType := ['u'] }])) := by rfl
+
 /-- `gaps_before_leftover`: never raises; the model's rows -/
 theorem gaps_before_leftover_is_source (built : Scaffold) (pred : Option (Fragment × List Gap)) (joinGap : Option Gap) :
     Gen.Imp.BuildAssembly_gaps_before_leftover built (pred.map (fun p => (p.1, p.2.map Row.gap))) joinGap
@@ -94,5 +101,15 @@ theorem gaps_before_leftover_of_input_predecessor (sc built : Scaffold) (i : Nat
   show Gen.Imp.BuildAssembly_gaps_before_leftover built (((inputPredecessor sc.rows i).map predToRows).bind srcOfRows) joinGap = _
   rw [bind_srcOfRows]
   exact gaps_before_leftover_is_source built _ joinGap
+
+example :
+    (Gen.Imp.BuildAssembly_input_predecessor
+      { name := ['s'], rows := [.frag { name := ['a'], start := 1, stop := 5, strand := -1 }, .gap { length := 7, gapType := ['u'] },
+                                .frag { name := ['b'], start := 2, stop := 9, strand := 1 }] } 2 >>= fun q =>
+      Gen.Imp.BuildAssembly_gaps_before_leftover
+        { name := ['t'], rows := [.frag { name := ['c'], start := 1, stop := 3, strand := 1 },
+                                  .frag { name := ['a'], start := 1, stop := 4, strand := -1 }] }
+        (q.bind srcOfRows) (some { length := 200, gapType := ['s'] }))
+    = .ok [.gap { length := 7, gapType := ['u'] }] := by rfl
 
 end AgpTpf.C07
